@@ -193,7 +193,9 @@ class Planner:
         r = self.rng
         nco = self.cfg.get("n_coef") or r.randint(1, 4)
         for _ in range(nco):
-            c = self.call("ufl.Coefficient", self.ref(r.choice(M["spaces"])), kind="coef")
+            # now and then an instance of a downstream subclass (shares the counter of its base)
+            cname = "sim.userclasses.Function" if r.random() < self.cfg.get("userclass_p", 0.12) else "ufl.Coefficient"
+            c = self.call(cname, self.ref(r.choice(M["spaces"])), kind="coef")
             if c is not None:
                 M["coefs"].append(c)
                 M["terms"].append(c)
@@ -203,7 +205,7 @@ class Planner:
         g = M["gdim"]
         for _ in range(ncs):
             sh = r.choice([(), (), (), (g,), (g, g)])
-            c = self.call("ufl.Constant", self.ref(M["slot"]), self.lit_tuple(sh), kind="const")
+            c = self.call("sim.userclasses.Parameter" if r.random() < self.cfg.get("userclass_p", 0.12) else "ufl.Constant", self.ref(M["slot"]), self.lit_tuple(sh), kind="const")
             if c is not None:
                 M["consts"].append(c)
                 M["terms"].append(c)
@@ -1217,7 +1219,7 @@ class Planner:
     def _space_of(self, coef_slot):
         """Slot of the function space a coefficient was built on."""
         for op in self.ops:
-            if op[0] == "call" and op[1] == coef_slot and op[2] == "ufl.Coefficient":
+            if op[0] == "call" and op[1] == coef_slot and op[2] in ("ufl.Coefficient", "sim.userclasses.Function"):
                 return op[3][0][1]
         return None
 
@@ -2308,7 +2310,7 @@ class Planner:
             "derived": [list(f) for f in self.derived],
             "exprs": self.exprs,
             "meshes": [
-                {"slot": M["slot"], "coefs": M["coefs"], "consts": M["consts"], "geos": M["geos"], "spaces": M["spaces"], "V": M.get("V"), "v": M.get("v"), "u": M.get("u"), "x": M.get("x"), "gdim": M["gdim"]}
+                {"slot": M["slot"], "coefs": M["coefs"], "consts": M["consts"], "geos": M["geos"], "spaces": M["spaces"], "V": M.get("V"), "v": M.get("v"), "u": M.get("u"), "x": M.get("x"), "gdim": M["gdim"], "msq": bool(M.get("msq"))}
                 for M in self.meshes
             ],
             "next": self.next,
